@@ -199,6 +199,11 @@ func runC08(c *Case) {
 					opts["receive_progress"] = true
 				}
 				p.Send(&wamp.Call{Request: wamp.ID(sent), Options: opts, Procedure: wamp.URI(fmt.Sprintf("proc.%d", (sent/7+ci)%nCallee)), Arguments: wamp.List{"call", ci, sent}})
+				if sent%10 == 5 {
+					// every 10th of these calls is cancelled at once in mode skip: whatever the callee still yields for it
+					// must not reach the caller after the ERROR that ends the call
+					p.Send(&wamp.Cancel{Request: wamp.ID(sent), Options: wamp.Dict{"mode": "skip"}})
+				}
 			})
 		}
 		for i, cal := range callees {
